@@ -1105,6 +1105,97 @@ def rule_weighted_fidelity(ctx: Ctx) -> None:
         raise AnalysisError("Infidelity.evaluate: no per-branch stabilizer fidelity found")
 
 
+# --------------------------------------------------------------------------- num.saturating-strength
+
+
+def _affine(e: ast.AST, var: str):
+    """(a, b) with e = a * var + b, or None"""
+    if isinstance(e, ast.Constant) and isinstance(e.value, (int, float)) and not isinstance(e.value, bool):
+        return (0.0, float(e.value))
+    if isinstance(e, ast.Name):
+        return (1.0, 0.0) if e.id == var else None
+    if isinstance(e, ast.UnaryOp) and isinstance(e.op, ast.USub):
+        r = _affine(e.operand, var)
+        return None if r is None else (-r[0], -r[1])
+    if isinstance(e, ast.BinOp):
+        l_, r_ = _affine(e.left, var), _affine(e.right, var)
+        if l_ is None or r_ is None:
+            return None
+        if isinstance(e.op, ast.Add):
+            return (l_[0] + r_[0], l_[1] + r_[1])
+        if isinstance(e.op, ast.Sub):
+            return (l_[0] - r_[0], l_[1] - r_[1])
+        if isinstance(e.op, ast.Mult):
+            if l_[0] == 0:
+                return (l_[1] * r_[0], l_[1] * r_[1])
+            if r_[0] == 0:
+                return (r_[1] * l_[0], r_[1] * l_[1])
+            return None
+        if isinstance(e.op, ast.Div) and r_[0] == 0 and r_[1] != 0:
+            return (l_[0] / r_[1], l_[1] / r_[1])
+    return None
+
+
+def rule_saturating_strength(ctx: Ctx) -> None:
+    """num.saturating-strength: a noise model's strength (a name read from noise_parameters[<...prob... / ...rate...>]) ranges over the
+    whole interval [0, 1].  A clamp (np.clip / min / max / np.minimum / np.maximum) applied to an affine function of the strength may
+    not be active anywhere inside that interval: where it is, the channel silently stops following its parameter (the density-matrix
+    and the stabilizer backends then simulate different strengths)."""
+    repo = ctx.repo
+    m = repo.module(NM)
+    scanned = hits = 0
+    for fn in [f for f in ast.walk(m.tree) if isinstance(f, ast.FunctionDef) and f.name == "apply"]:
+        strengths = {}
+        for a in ast.walk(fn):
+            if isinstance(a, ast.Assign) and len(a.targets) == 1 and isinstance(a.targets[0], ast.Name) and isinstance(a.value, ast.Subscript) \
+                    and norm(a.value.value) == "self.noise_parameters" and isinstance(a.value.slice, ast.Constant) and isinstance(a.value.slice.value, str) \
+                    and any(w in a.value.slice.value.lower() for w in ("prob", "rate")):
+                strengths[a.targets[0].id] = a.value.slice.value
+        if not strengths:
+            continue
+        scanned += 1
+        ctx.touch(m, fn)
+        for c in [x for x in ast.walk(fn) if isinstance(x, ast.Call)]:
+            cn = call_name(c) or ""
+            lo = hi = None
+            subj = None
+            if cn in ("np.clip", "numpy.clip") and len(c.args) == 3:
+                subj, lo, hi = c.args
+            elif cn in ("min", "np.minimum") and len(c.args) == 2:
+                subj, hi = (c.args if not isinstance(c.args[0], ast.Constant) else c.args[::-1])
+            elif cn in ("max", "np.maximum") and len(c.args) == 2:
+                subj, lo = (c.args if not isinstance(c.args[0], ast.Constant) else c.args[::-1])
+            else:
+                continue
+            used = [v for v in strengths if any(isinstance(x, ast.Name) and x.id == v for x in ast.walk(subj))]
+            if len(used) != 1:
+                continue
+            v = used[0]
+            af = _affine(subj, v)
+            bounds = [(_affine(b, v) if b is not None else None) for b in (lo, hi)]
+            if af is None or any(b is not None and b[0] != 0 for b in bounds if b is not None) or any(b is None and src is not None for b, src in zip(bounds, (lo, hi))):
+                raise AnalysisError(f"{qualname(fn)}: clamp `{short(c)}` of the noise strength is not an affine expression with constant bounds")
+            hits += 1
+            rng = sorted((af[1], af[0] + af[1]))
+            lo_v = bounds[0][1] if bounds[0] is not None else float("-inf")
+            hi_v = bounds[1][1] if bounds[1] is not None else float("inf")
+            eps = 1e-12
+            if rng[0] < lo_v - eps or rng[1] > hi_v + eps:
+                # where does it start to bite
+                at = None
+                if af[0] != 0:
+                    cand = [((b - af[1]) / af[0]) for b in (lo_v, hi_v) if b not in (float("-inf"), float("inf"))]
+                    cand = [x for x in cand if 0 < x < 1]
+                    at = cand[0] if cand else None
+                ctx.fail("num.saturating-strength", m, c,
+                         f"{qualname(fn)} clamps `{short(subj)}` to [{lo_v}, {hi_v}] although it ranges over [{rng[0]:.4g}, {rng[1]:.4g}] for '{strengths[v]}' in [0, 1]"
+                         + (f": beyond {at:.4g} the simulated channel no longer follows its parameter" if at is not None else ""),
+                         func=qualname(fn), construct=f"{qualname(fn)}: clamp active inside the strength's domain")
+            else:
+                ctx.ok("num.saturating-strength", m, c, what="clamp inactive on [0, 1]")
+    ctx.ok_abstract("num.saturating-strength", f"{scanned} apply methods with a strength parameter scanned, {hits} clamps of a strength")
+
+
 # --------------------------------------------------------------------------- noise.pauli-tags
 
 
